@@ -40,12 +40,9 @@ def rule_table_style(prog, rep, tier):
         raise AnalysisError("TABLE-style: cannot read the detection order out of parse_docstring (found %r, default %r)" % (order, last))
     prec = order + [last]
     rep.note("TABLE-style", "detection precedence %s" % " > ".join(prec))
-    # headers written by emit.docstring per style
+    # headers written by emit.docstring (and the private helpers it is split into) per style
     ed = prog.fn("emit.docstring")
-    fmt_param = None
-    for p in ed.params():
-        if "format" in p:
-            fmt_param = p
+    ed_region = [f for f in prog.region(ed)]
     all_sections = {t for tbl in (ARG, RET) for st_ in styles for t in getattr_nt(tbl, st_)}
 
     def header_like(v):
@@ -53,28 +50,34 @@ def rule_table_style(prog, rep, tier):
 
     H = {s: [] for s in styles}
     for s in styles:
-        env = {fmt_param: s}
-        folded = {}
-        for e in ast.walk(ed.node):
-            if isinstance(e, (ast.IfExp, ast.Subscript, ast.Constant, ast.Call, ast.Name, ast.BinOp, ast.JoinedStr)) and not isinstance(getattr(e, "ctx", None), ast.Store):
-                v = folder.fold(e, env, e)
-                if header_like(v):
-                    folded[id(e)] = (v, e)
-        for v, e in folded.values():
-            if id(getattr(e, "_parent", None)) in folded:
-                continue  # keep maximal expressions only
-            skip = False
-            for t, pol in expr_guards(e, stop=ed.node):
-                tv = folder.fold(t, env, t)
-                if tv is not UNKNOWN and bool(tv) != pol:
-                    skip = True
-            if not skip:
-                H[s].append((v.strip("\n"), e))
+        for f in ed_region:
+            fparams = [p_ for p_ in f.params() if "format" in p_ or "style" in p_]
+            env = {p_: s for p_ in fparams}
+            folded = {}
+            for e in ast.walk(f.node):
+                if isinstance(e, (ast.IfExp, ast.Subscript, ast.Constant, ast.Call, ast.Name, ast.BinOp, ast.JoinedStr)) and not isinstance(getattr(e, "ctx", None), ast.Store):
+                    v = folder.fold(e, env, e)
+                    if header_like(v):
+                        folded[id(e)] = (v, e)
+            for v, e in folded.values():
+                if id(getattr(e, "_parent", None)) in folded:
+                    continue  # keep maximal expressions only
+                skip = False
+                for t, pol in expr_guards(e, stop=f.node):
+                    tv = folder.fold(t, env, t)
+                    if tv is not UNKNOWN and bool(tv) != pol:
+                        skip = True
+                if not skip and v.strip("\n") not in [h for h, _ in H[s]]:
+                    H[s].append((v.strip("\n"), e))
     # hard-coded headers (string constants that look like section headers) in emit.docstring
     # ReST markers from emit_param_str
     eps = prog.fn("docstring_utils.emit_param_str")
-    rest_markers = sorted(literal_prefixes(eps.node, eps.node, starts_with=":").items())
-    rest_markers = [(m.rstrip(), e) for m, e in rest_markers]
+    eps_region = prog.region(eps)
+    rest_markers = {}
+    for f in eps_region:
+        for m, e in literal_prefixes(f.node, f.node, starts_with=":").items():
+            rest_markers.setdefault(m.rstrip(), e)
+    rest_markers = sorted(rest_markers.items())
     if len({m for m, _ in rest_markers}) < 4:
         raise AnalysisError("TABLE-style: only %d ReST line markers recovered from emit_param_str: %r" % (len(rest_markers), [m for m, _ in rest_markers]))
     H["rest"] = H.get("rest", []) + rest_markers
@@ -124,9 +127,17 @@ def rule_table_style(prog, rep, tier):
         # templates of the non-rest branches that carry the parameter name
         branches = [b for b in ast.walk(eps.node) if isinstance(b, ast.If)]
         tmpl = []
-        for cst in _consts(eps.node):
-            if "{name}" in cst.value and not cst.value.lstrip().startswith(("param", "type", ":")):
-                tmpl.append(cst)
+        for f in eps_region:
+            for cst in _consts(f.node):
+                if "{name}" in cst.value and not cst.value.lstrip().startswith(("param", "type", ":")):
+                    tmpl.append(cst)
+            # f-string form: literal prefixes of the lines that start with blanks or the name hole
+            for js in [n_ for n_ in ast.walk(f.node) if isinstance(n_, ast.JoinedStr)]:
+                lits = [v_.value for v_ in js.values if isinstance(v_, ast.Constant)]
+                holes = [v_ for v_ in js.values if isinstance(v_, ast.FormattedValue) and isinstance(v_.value, ast.Name) and v_.value.id == "name"]
+                if holes and lits and not "".join(lits).lstrip().startswith((":", "param", "type")):
+                    tmpl.append(ast.copy_location(ast.Constant(value="".join("{name}" if isinstance(v_, ast.FormattedValue) and isinstance(v_.value, ast.Name) and v_.value.id == "name"
+                                                                           else ("{x}" if isinstance(v_, ast.FormattedValue) else v_.value) for v_ in js.values)), js))
         for cst in tmpl:
             n += 1
             if cst.value.endswith(section_suffix) or cst.value.rstrip("\n").endswith(section_suffix) and False:
@@ -148,7 +159,7 @@ def rule_table_cvar(prog, rep, tier):
     folder = Folder(prog)
     TOK = folder.fold_name("docstring_utils", "TOKENS")
     ec = prog.fn("emit.class_")
-    reps = [c for c in ast.walk(ec.node) if isinstance(c, ast.Call) and isinstance(c.func, ast.Attribute) and c.func.attr == "replace" and len(c.args) >= 2]
+    reps = [c for f_ in prog.region(ec) for c in ast.walk(f_.node) if isinstance(c, ast.Call) and isinstance(c.func, ast.Attribute) and c.func.attr == "replace" and len(c.args) >= 2]
     env = {"sep": "    ", "indent_level": 1}
 
     def f(e):
@@ -164,7 +175,7 @@ def rule_table_cvar(prog, rep, tier):
     # readers
     for q in ("parse.class_", "parse.function"):
         fi = prog.fn(q)
-        rr = [(f(c.args[0]), f(c.args[1]), c) for c in ast.walk(fi.node) if isinstance(c, ast.Call) and isinstance(c.func, ast.Attribute) and c.func.attr == "replace" and len(c.args) >= 2]
+        rr = [(f(c.args[0]), f(c.args[1]), c) for f_ in prog.region(fi) for c in ast.walk(f_.node) if isinstance(c, ast.Call) and isinstance(c.func, ast.Attribute) and c.func.attr == "replace" and len(c.args) >= 2]
         rr = [(a, b, c) for a, b, c in rr if b and ":param" in b]
         if not rr:
             rep.violation(Finding("TABLE-cvar", q, "no-cvar-rewrite", "%s no longer rewrites the class attribute marker back to ':param'" % q, loc(prog, fi.node)))
@@ -183,7 +194,8 @@ def rule_table_cvar(prog, rep, tier):
     a, b, c = w_ret
     key_w = b.strip().strip(":").split()[-1] if b else None
     pc = prog.fn("parse.class_")
-    pops = [x for x in ast.walk(pc.node) if isinstance(x, ast.Call) and isinstance(x.func, ast.Attribute) and x.func.attr == "pop" and x.args and isinstance(x.args[0], ast.Constant)]
+    pc_nodes = [f_.node for f_ in prog.region(pc)]
+    pops = [x for nd_ in pc_nodes for x in ast.walk(nd_) if isinstance(x, ast.Call) and isinstance(x.func, ast.Attribute) and x.func.attr == "pop" and x.args and isinstance(x.args[0], ast.Constant)]
     keys_r = {x.args[0].value for x in pops}
     if key_w in keys_r:
         rep.holds("TABLE-cvar", "reserved attribute %r written by emit.class_ is popped back into 'returns' by parse.class_" % key_w, loc(prog, c), "")
@@ -192,8 +204,8 @@ def rule_table_cvar(prog, rep, tier):
                               "emit.class_ carries the return entry as attribute %r but parse.class_ pops %r" % (key_w, sorted(keys_r)), loc(prog, pc.node)))
     # the attribute loop of the class parser must route the reserved attribute to 'returns' as well (a return entry
     # without prose has no ':cvar return_type:' line, so the docstring path alone does not cover it)
-    routes = [x for x in ast.walk(pc.node) if isinstance(x, ast.Compare) and len(x.ops) == 1 and isinstance(x.ops[0], ast.Eq)
-              and isinstance(x.left, ast.Attribute) and x.left.attr == "id" and isinstance(x.comparators[0], ast.Constant) and x.comparators[0].value == key_w]
+    routes = [x for nd_ in pc_nodes for x in ast.walk(nd_) if isinstance(x, ast.Compare) and len(x.ops) == 1 and isinstance(x.ops[0], ast.Eq)
+              and any(isinstance(y, ast.Constant) and y.value == key_w for y in (x.left, x.comparators[0]))]
     if routes:
         rep.holds("TABLE-cvar", "parse.class_ routes an attribute named %r to 'returns'" % key_w, loc(prog, routes[0]), "")
     else:
@@ -202,7 +214,7 @@ def rule_table_cvar(prog, rep, tier):
                               "comes back as an ordinary parameter" % (key_w, key_w), loc(prog, pc.node)))
     # the ':returns:' text replaced must be what the ReST line writer produces
     eps = prog.fn("docstring_utils.emit_param_str")
-    ret_markers = [m.rstrip() for m in literal_prefixes(eps.node, eps.node, starts_with=":return")]
+    ret_markers = [m.rstrip() for f_ in prog.region(eps) for m in literal_prefixes(f_.node, f_.node, starts_with=":return")]
     if ret_markers and any(m in a for m in ret_markers):
         rep.holds("TABLE-cvar", "class emitter replaces %r, a marker the ReST writer produces for the return entry" % ret_markers[0], loc(prog, c), "")
     else:
@@ -264,13 +276,15 @@ def rule_table_argparse(prog, rep, tier):
     w = prog.fn("ast_utils.param2argparse_param")
     r = prog.fn("emitter_utils.parse_out_param")
     kw_w = {}
-    for c in ast.walk(w.node):
+    w_nodes = [f_.node for f_ in prog.region(w)]
+    r_nodes = [f_.node for f_ in prog.region(r)]
+    for c in [c_ for nd_ in w_nodes for c_ in ast.walk(nd_)]:
         if isinstance(c, ast.Call) and (c.func.id if isinstance(c.func, ast.Name) else getattr(c.func, "attr", "")) == "keyword":
             for k in c.keywords:
                 if k.arg == "arg" and isinstance(k.value, ast.Constant):
                     kw_w[k.value.value] = c
     kw_r = set()
-    for c in ast.walk(r.node):
+    for c in [c_ for nd_ in r_nodes for c_ in ast.walk(nd_)]:
         if isinstance(c, ast.Compare) and len(c.ops) == 1 and isinstance(c.ops[0], ast.Eq) and isinstance(c.left, ast.Attribute) and c.left.attr == "arg" \
                 and isinstance(c.comparators[0], ast.Constant):
             kw_r.add(c.comparators[0].value)
@@ -296,8 +310,10 @@ def rule_table_argparse(prog, rep, tier):
             rep.violation(Finding("TABLE-argparse", "ast_utils.param2argparse_param", "keyword:%s" % k,
                                   "the argparse emitter carries IR information in keyword %r, which parse_out_param never reads (it reads %r)" % (k, sorted(kw_r)), loc(prog, c)))
     # option prefix
-    pre_w = [c.value.split("{")[0] for c in _consts(w.node) if "{name}" in c.value]
-    pre_r = [c.args[0].value for c in ast.walk(r.node) if isinstance(c, ast.Call) and isinstance(c.func, ast.Name) and c.func.id == "len" and c.args and isinstance(c.args[0], ast.Constant) and isinstance(c.args[0].value, str)]
+    pre_w = [c.value.split("{")[0] for nd_ in w_nodes for c in _consts(nd_) if "{name}" in c.value]
+    pre_w += [js.values[0].value for nd_ in w_nodes for js in ast.walk(nd_) if isinstance(js, ast.JoinedStr) and len(js.values) == 2 and isinstance(js.values[0], ast.Constant)
+              and isinstance(js.values[1], ast.FormattedValue) and isinstance(js.values[1].value, ast.Name) and js.values[1].value.id == "name"]
+    pre_r = [c.args[0].value for nd_ in r_nodes for c in ast.walk(nd_) if isinstance(c, ast.Call) and isinstance(c.func, ast.Name) and c.func.id == "len" and c.args and isinstance(c.args[0], ast.Constant) and isinstance(c.args[0].value, str)]
     if pre_w and pre_r and pre_w[0] == pre_r[0]:
         rep.holds("TABLE-argparse", "option prefix %r added and stripped" % pre_w[0], loc(prog, w.node), "")
     else:
@@ -315,7 +331,7 @@ def rule_table_argparse(prog, rep, tier):
     def built(fi, attr_name):
         """(receiver id, attribute) pairs of Attribute(Name(<recv>, Load()), <attr>, ...) constructor calls in fi"""
         out = []
-        for c in ast.walk(fi.node):
+        for c in [c_ for f_ in prog.region(fi) for c_ in ast.walk(f_.node)]:
             if isinstance(c, ast.Call) and (c.func.id if isinstance(c.func, ast.Name) else "") == "Attribute" and len(c.args) >= 2 \
                     and isinstance(c.args[0], ast.Call) and (c.args[0].func.id if isinstance(c.args[0].func, ast.Name) else "") == "Name" and c.args[0].args \
                     and isinstance(c.args[0].args[0], ast.Constant) and isinstance(c.args[1], ast.Constant):
@@ -355,7 +371,7 @@ def rule_table_argparse(prog, rep, tier):
                     for te, ve in zip(tg.elts, st.value.elts):
                         if isinstance(te, ast.Name) and te.id == "action" and isinstance(ve, ast.Constant) and isinstance(ve.value, str):
                             acts_w.add(ve.value)
-    acts_r = {c.comparators[0].value for c in ast.walk(r.node) if isinstance(c, ast.Compare) and isinstance(c.left, ast.Name) and c.left.id == "action" and isinstance(c.comparators[0], ast.Constant)}
+    acts_r = {c.comparators[0].value for nd_ in r_nodes for c in ast.walk(nd_) if isinstance(c, ast.Compare) and isinstance(c.left, ast.Name) and c.left.id == "action" and isinstance(c.comparators[0], ast.Constant)}
     for a in sorted(acts_w):
         if a in acts_r:
             rep.holds("TABLE-argparse", "action %r written and understood" % a, loc(prog, r.node), "")
@@ -403,12 +419,19 @@ def rule_table_announce(prog, rep, tier):
         fi = prog.fn(q)
         # P: the literal fragments of the strings the writer builds (constants, f-strings, .format templates); the written
         # phrase is a fragment that mentions 'default'
-        frags = {f: nd for f, nd in literal_fragments(fi.node, fi.node).items() if "default" in f.casefold() and f.strip() and len(f) < 60 and f.casefold().strip() != "default"}
+        frags = {}
+        holder = {}
+        for f_ in prog.region(fi):
+            for fr, nd in literal_fragments(f_.node, f_.node).items():
+                if "default" in fr.casefold() and fr.strip() and len(fr) < 60 and fr.casefold().strip() != "default":
+                    frags.setdefault(fr, nd)
+                    holder.setdefault(fr, f_)
         if not frags:
             raise AnalysisError("TABLE-announce: %s no longer writes a default sentence with a literal phrase" % q)
         hit = [f for f in frags if any(r in norm(f) for r in Rn)]
         lit = hit[0] if hit else sorted(frags)[0]
         p = frags[lit]
+        fi = holder[lit]  # the function that holds the phrase: its guards decide when the sentence is written
         # (a) the written phrase is one the reader announces
         if any(r in norm(lit) for r in Rn):
             rep.holds("TABLE-announce", "(a) %s writes %r, which contains a reader announcement" % (q, lit), loc(prog, p), "")
